@@ -88,6 +88,9 @@ def rprogram(rnd, maxdepth=5):
     nf = rnd.randint(0, 3)
     fns = [f'fn{i}' for i in range(nf)]
     prog = []
+    if rnd.random() < 0.4:
+        # control flow at global scope before the functions (the label counter is script-wide)
+        prog += block(rnd, GVARS, [], rnd.randint(1, max(1, maxdepth - 1)), False, False, ctr)
     for i, f in enumerate(fns):
         args = [['pa'], ['pa', 'pb'], []][rnd.randrange(3)]
         callable_ = fns[:i + 1] if rnd.random() < 0.3 else fns[:i]      # occasional (guarded) recursion
